@@ -10,8 +10,9 @@
    * [solve_lu_triangular_backward_error_lemma]: what solve_lu returns went through exactly these two solves.
 
    U is the upper triangle of the matrix handed to backsolve: the triangular HALF of the backward-error claim of C01.
-   NOT covered: the factorisation itself (the errors of gauss_with_pivot / lu_decomp, i.e. the growth factor of
-   Gaussian elimination with partial pivoting) -- U and L here are the COMPUTED factors.
+   U and L here are the COMPUTED factors; the errors of the factorisation itself are the subject of
+   Proofs/RoundLUError.v (lu_decomp, Higham Thm 9.3), Proofs/RoundSolveLU.v and Proofs/RoundSolveBasic.v (the solvers as a
+   whole, Thm 9.4).  Nowhere is |L^||U^| compared with |A|: the growth factor is not covered.
    The hypotheses are total functions on R obeying the standard model; division only needs it for divisors <> 0
    and the theorems assume a nonzero diagonal. *)
 From Coq Require Import List Arith Lia Reals Lra Psatz Bool.
